@@ -79,12 +79,15 @@ func vC08Authonly(keys []string, small bool) {
 	}
 }
 
+// auth-only allowed_groups constraint equals the reference
 // verif: unwind=8 strlen=8 concretize=4 also=C19
 func vh_C08_authonly_groups() { vC08Authonly([]string{"allowed_groups"}, false) }
 
+// auth-only allowed_emails constraint equals the reference
 // verif: unwind=8 strlen=8 concretize=4 also=C19
 func vh_C08_authonly_emails() { vC08Authonly([]string{"allowed_emails"}, false) }
 
+// auth-only allowed_email_domains constraint equals the reference (symbolic domains; thorough tier)
 // verif: unwind=8 strlen=8 concretize=4 paths=40000 tiers=thorough tstrlen=10 tunwind=10
 func vh_C08_authonly_domains() {
 	vC08Authonly([]string{"allowed_email_domains"}, true)
@@ -186,6 +189,7 @@ func vh_C20_usermap_reload() {
 	}
 }
 
+// authenticated-emails IsValid concurrent with a reload is free of data races and sees a complete map
 // verif: unwind=6 strlen=12 race
 func vh_C20_usermap_race() {
 	um := vUserMap("al@x.io")
